@@ -38,6 +38,11 @@ def signals(r, N):
     yield "square4", np.array([1.0 if (j % 4) < 2 else 0.0 for j in range(N)])
     p = max(2, N // 5)
     yield "squareN5", np.array([1.0 if (j % p) < p // 2 else -0.5 for j in range(N)])
+    # real signals whose samples happen to be integers, held as an integer array / a plain list
+    xi = np.zeros(N, dtype=np.int64)
+    xi[r.randrange(N)] = 1
+    yield "impulse (int64 array)", xi
+    yield "square (list of ints)", [1 if (j % 4) < 2 else 0 for j in range(N)]
 
 
 def cond(H, N):
